@@ -141,28 +141,10 @@ def isIdent : Str → Bool
   | [] => false
   | c :: cs => isIdStart c && cs.all isIdChar
 
-/-- Boost.Regex treats `\n`, `\r`, `\f` as line separators (`is_separator`). -/
-def isLineSep (c : Char) : Bool := c == '\n' || c == '\r' || c == chFF
-
-inductive SegSt where
-  | fresh | good | dead
-deriving DecidableEq
-
-/-- `boost::regex_search(identifier, "^[a-zA-Z_][a-zA-Z0-9\\_]*$")` (configwriter.cpp:146-148).
-    Boost's Perl syntax has the `m` modifier ON by default: `^` also matches after, and `$` before,
-    an embedded line separator.  The search therefore succeeds iff SOME LINE of the string is an
-    identifier — not iff the string is one. -/
-def bareScan : SegSt → Str → Bool
-  | st, [] => st == .good
-  | st, c :: cs =>
-    if isLineSep c then (st == .good) || bareScan .fresh cs
-    else
-      match st with
-      | .fresh => bareScan (if isIdStart c then .good else .dead) cs
-      | .good => bareScan (if isIdChar c then .good else .dead) cs
-      | .dead => bareScan .dead cs
-
-def bareMatch (s : Str) : Bool := bareScan .fresh s
+/-- `boost::regex_match(identifier, "^[a-zA-Z_][a-zA-Z0-9\\_]*$")` (configwriter.cpp:146-150, after
+    917b518): the WHOLE key must be an identifier (the pattern's character classes cannot consume a
+    line break, so Boost's multi-line `^`/`$` make no difference to a whole-string match). -/
+def bareMatch (s : Str) : Bool := isIdent s
 
 /-- `EmitIdentifier(fp, id, inAssignment = true)`: never throws. -/
 def emitKey (k : Str) : Str :=
@@ -200,17 +182,18 @@ def emitValue (ind : Nat) : Value → Str
   | .str s => emitString s
   | .arr [] => ['[', ' ', ']']
   | .arr (x :: xs) => '[' :: ' ' :: (emitValue ind x ++ emitRestElems ind xs)
-  | .dict kvs => '{' :: emitMembers ind kvs
+  | .dict kvs => '{' :: '\n' :: membersTail ind kvs
 /-- after the first array element: `, v` for each further one, then ` ]`. -/
 def emitRestElems (ind : Nat) : List Value → Str
   | [] => [' ', ']']
   | x :: xs => ',' :: ' ' :: (emitValue ind x ++ emitRestElems ind xs)
-/-- `EmitScope(fp, ind, val)` after the `{` (no imports, `splitDot = false`): one line per entry, then
-    the closing brace indented one level less. -/
-def emitMembers (ind : Nat) : List (Str × Value) → Str
-  | [] => '\n' :: (tabs (ind - 1) ++ ['}'])
+/-- `EmitScope(fp, ind, val)` after the `{` and its line break (no imports, `splitDot = false`): one
+    line per entry (`\n` + indent + key ` = ` value — written here with the `\n` at the END of the
+    preceding piece), then the closing brace indented one level less. -/
+def membersTail (ind : Nat) : List (Str × Value) → Str
+  | [] => tabs (ind - 1) ++ ['}']
   | (k, v) :: kvs =>
-    '\n' :: (tabs ind ++ (emitKey k ++ (' ' :: '=' :: ' ' :: (emitValue (ind + 1) v ++ emitMembers ind kvs))))
+    tabs ind ++ (emitKey k ++ (' ' :: '=' :: ' ' :: (emitValue (ind + 1) v ++ ('\n' :: membersTail ind kvs))))
 end
 
 /-! ## The object statement: `EmitConfigItem` (configwriter.cpp:156-174) with `EmitScope(fp, 1, attrs,
@@ -230,21 +213,24 @@ def emitIndexers : List Str → Str
 /-- `a["b"]["c"]` for the key `a.b.c`. -/
 def emitLhs (k : Str) : Str := emitKey (splitDots k).1 ++ emitIndexers (splitDots k).2
 
-/-- `import "<name>"` lines — the template name is written RAW between the quotes
-    (configwriter.cpp:68: `fp << "import \"" << import << "\""`), then one `\n` if there were any. -/
+/-- `import "<name>"` lines: `fp << "import "; EmitString(fp, import)` (configwriter.cpp:66-67, after
+    d511a4f), then one `\n` if there were any. -/
 def emitImportLines : List Str → Str
   | [] => []
-  | t :: ts => '\n' :: '\t' :: 'i' :: 'm' :: 'p' :: 'o' :: 'r' :: 't' :: ' ' :: '"' :: (t ++ ('"' :: emitImportLines ts))
+  | t :: ts => '\n' :: '\t' :: 'i' :: 'm' :: 'p' :: 'o' :: 'r' :: 't' :: ' ' :: (emitString t ++ emitImportLines ts)
 
 def emitImports (ts : List Str) : Str :=
   match ts with
   | [] => []
   | _ :: _ => emitImportLines ts ++ ['\n']
 
-def emitTopMembers : List (Str × Value) → Str
-  | [] => ['\n', '}']
+/-- the attribute lines of the object body, from just after a line break, and the closing brace -/
+def topTail : List (Str × Value) → Str
+  | [] => ['}']
   | (k, v) :: kvs =>
-    '\n' :: '\t' :: (emitLhs k ++ (' ' :: '=' :: ' ' :: (emitValue 2 v ++ emitTopMembers kvs)))
+    '\t' :: (emitLhs k ++ (' ' :: '=' :: ' ' :: (emitValue 2 v ++ ('\n' :: topTail kvs))))
+
+def emitTopMembers (attrs : List (Str × Value)) : Str := '\n' :: topTail attrs
 
 def kwObject : Str := ['o', 'b', 'j', 'e', 'c', 't']
 def kwIoe : Str := ['i', 'g', 'n', 'o', 'r', 'e', '_', 'o', 'n', '_', 'e', 'r', 'r', 'o', 'r']
@@ -309,14 +295,17 @@ def lookupStr (k : Str) : List (Str × Value) → Option Str
   | [] => none
   | (k', v) :: r => if k = k' then (match v with | .str s => some s | _ => none) else lookupStr k r
 
+/-- the `name` the statement carries: the full name, or the `name` part of a composite one (138-145) -/
+def shortName (fullName : Str) (parts : Option (List (Str × Value))) : Str :=
+  match parts with
+  | none => fullName
+  | some ps => (lookupStr kName ps).getD []
+
 /-- `CreateObjectConfig`; `none` = it throws. -/
 def createObjectConfig (ti : TypeInfo) (fullName : Str) (ioe : Bool) (templates : List Str)
     (attrs : List (Str × Value)) (parts : Option (List (Str × Value))) (now : Dec) : Option Str :=
   if attrsAllowed ti attrs then
-    let name := match parts with
-      | none => fullName
-      | some ps => (lookupStr kName ps).getD []
-    emitConfigItem ti.name name ioe templates (allAttrs attrs parts now)
+    emitConfigItem ti.name (shortName fullName parts) ioe templates (allAttrs attrs parts now)
   else none
 
 /-! ## Reading the text back: blanks and comments (config_lexer.ll:142-156) -/
@@ -627,6 +616,21 @@ inductive Stmt where
   | imp (tmpl : Str)
   | assign (head : Str) (idx : List Str) (v : Value)
 
+/-- `lhs = value` -/
+def parseAssign (bs : Str) : Option (Stmt × Str) :=
+  match parseKey bs with
+  | none => none
+  | some (k, r0) =>
+    match parseIndexersF r0.length r0 with
+    | none => none
+    | some (ix, r1) =>
+      match expectEq r1 with
+      | none => none
+      | some r2 =>
+        match parseValueF (r2.length + 1) r2 with
+        | some (v, r3) => some (.assign k ix v, r3)
+        | none => none
+
 /-- one statement of the object body: `import "t"` or `lhs = value`. -/
 def parseStmt (bs : Str) : Option (Stmt × Str) :=
   match spanIdent bs with
@@ -638,32 +642,8 @@ def parseStmt (bs : Str) : Option (Stmt × Str) :=
         | some (s, t2) => some (.imp s, t2)
         | none => none
       | none => none
-    else
-      match parseKey bs with
-      | none => none
-      | some (k, r0) =>
-        match parseIndexersF r0.length r0 with
-        | none => none
-        | some (ix, r1) =>
-          match expectEq r1 with
-          | none => none
-          | some r2 =>
-            match parseValueF (r2.length + 1) r2 with
-            | some (v, r3) => some (.assign k ix v, r3)
-            | none => none
-  | none =>
-    match parseKey bs with
-    | none => none
-    | some (k, r0) =>
-      match parseIndexersF r0.length r0 with
-      | none => none
-      | some (ix, r1) =>
-        match expectEq r1 with
-        | none => none
-        | some r2 =>
-          match parseValueF (r2.length + 1) r2 with
-          | some (v, r3) => some (.assign k ix v, r3)
-          | none => none
+    else parseAssign bs
+  | none => parseAssign bs
 
 /-- the object body from just after `{`. -/
 def parseStmtsF : Nat → Str → Option (List Stmt × Str)
@@ -760,6 +740,23 @@ def parseItem (bs : Str) : Option Item :=
                     | some [] => some { ty := ty, name := name, ioe := ioe, imports := stmtImports ss, assigns := stmtAssigns ss }
                     | _ => none
       else none
+
+mutual
+/-- every number replaced by its six-fractional-digit rounding (what the emitted literal denotes) -/
+def round6V : Value → Value
+  | .num d => .num (round6 d)
+  | .arr xs => .arr (round6Vs xs)
+  | .dict kvs => .dict (round6Ms kvs)
+  | .empty => .empty
+  | .bool b => .bool b
+  | .str s => .str s
+def round6Vs : List Value → List Value
+  | [] => []
+  | x :: xs => round6V x :: round6Vs xs
+def round6Ms : List (Str × Value) → List (Str × Value)
+  | [] => []
+  | (k, v) :: r => (k, round6V v) :: round6Ms r
+end
 
 /-! ## What the parsed body means: assignments applied in order to the (empty) attribute set -/
 
